@@ -114,13 +114,7 @@ func (w *World) identify(po tabular.PropertyOwner) (string, bool) {
 		if mc == nil {
 			return name, false
 		}
-		cells := w.liveCellsOf(mc)
-		for i := range cells {
-			if &cells[i] == x {
-				return name, true
-			}
-		}
-		return name, false
+		return name, w.livePtr(mc) == x
 	}
 	// a column (unexported type): compare with the table's handles
 	for n := 0; n <= w.Core.NColumns(); n++ {
@@ -142,6 +136,26 @@ func (w *World) itemIDOf(item interface{}) (id int, ok bool) {
 	}()
 	id, ok = w.itemByVal[item]
 	return
+}
+
+// livePtr returns the live cell for a model cell: through CellAt whenever the
+// row is in the table (the one lookup the API promises to be the cell itself),
+// otherwise the element of the row's (or header's) current cell slice.
+func (w *World) livePtr(mc *mCell) *tabular.Cell {
+	if mc.row == nil {
+		return nil
+	}
+	if mc.row.attached && !mc.row.header && !mc.row.sep && mc.row.pos > 0 && !w.inAttach {
+		if p, err := w.Tab.CellAt(tabular.CellLocation{Row: mc.row.pos, Column: mc.idx + 1}); err == nil {
+			return p
+		}
+		return nil
+	}
+	cells := w.liveCellsOf(mc)
+	if mc.idx < len(cells) {
+		return &cells[mc.idx]
+	}
+	return nil
 }
 
 // liveCellsOf returns the current cell slice of the row that holds mc.
@@ -229,11 +243,11 @@ func (w *World) DoCB(st *Step) (bool, *Violation) {
 				return true, nil
 			}
 			cb.cell = all[len(all)-1-i]
-			cells := cb.cell.row.real.Cells()
-			if cb.cell.idx >= len(cells) {
+			p := w.livePtr(cb.cell)
+			if p == nil {
 				return true, nil
 			}
-			owner = &cells[cb.cell.idx]
+			owner = p
 		default:
 			owner = w.Tab
 			if _, isCore := w.Tab.(*tabular.ATable); isCore {
@@ -585,9 +599,8 @@ func (w *World) lookup(name string) tabular.PropertyOwner {
 		if mc == nil || mc.row == nil {
 			return nil
 		}
-		cells := w.liveCellsOf(mc)
-		if mc.idx < len(cells) {
-			return &cells[mc.idx]
+		if p := w.livePtr(mc); p != nil {
+			return p
 		}
 	}
 	return nil
